@@ -29,6 +29,15 @@ theorem orbit_reads_exact :
 are all taken from one value, the orbit's date converted to UTC -/
 theorem epoch_from_utc_date : Generated.Tle.dateExpr = "orbit.date.change_scale('UTC').datetime" := by decide
 
+/-- **`Tle.orbit()` builds a new orbit on every call and keeps nothing**: as read from the AST on this run, the method is an
+assignment (the dictionary of the extra entries) followed by `return Orbit(self.to_list(), self.epoch, 'TLE', 'TEME', 'Sgp4', …)` —
+a constructor call on the parsed fields — and stores to no attribute of `self`.  Hence two orbits taken from one `Tle` are
+distinct objects holding the parsed values, whatever was done to the first in between (the `src` of `OrbState` is the text, not
+an orbit): the in-place histories of `history_independent_of_source` start from the same state at every `orbit()`. -/
+theorem tle_orbit_builds_fresh :
+    Generated.Tle.tleOrbitShape = ["stmt:Assign", "stmt:Return", "return:Orbit(self.to_list(), self.epoch, 'TLE', 'TEME', 'Sgp4')"] := by
+  decide
+
 /-! ## every accepted record was written on 69 columns -/
 
 theorem renderN_lit (nt : Str) (r : Rec) (s : Str) (ss : List Seg) (b : Str) (h : renderN nt r (.lit s :: ss) = some b) :
